@@ -44,7 +44,10 @@ func (g *docGen) scalar() *model.Value {
 	case 1:
 		return model.NewBool(rapid.Bool().Draw(t, "b"))
 	case 2, 3, 4:
-		return model.NewInt(int64(rapid.SampledFrom([]int{0, 1, 2, 3, 5, 7, 10, -1, -2, -7, 42, 100, 1000, 65536, 2147483647, -2147483648, 4294967296, 9007199254740991}).Draw(t, "i")))
+		if rapid.IntRange(0, 7).Draw(t, "bigi") == 0 {
+			return model.NewInt(int64(rapid.SampledFrom([]int{9007199254740992, 9007199254740993, 9007199254740995, -9007199254740993, 4611686018427387905, 9223372036854775806}).Draw(t, "ibig")))
+		}
+		return model.NewInt(int64(rapid.SampledFrom([]int{0, 1, 2, 3, 5, 7, 10, -1, -2, -7, 42, 100, 1000, 65536, 2147483647, -2147483648, 4294967296, 9007199254740991, 9007199254740992, 9007199254740993, 9007199254740994, -9007199254740993, 9223372036854775806, 9223372036854775807}).Draw(t, "i")))
 	case 5:
 		if g.o.NoFloats {
 			return model.NewInt(int64(rapid.IntRange(-5, 5).Draw(t, "i2")))
@@ -162,7 +165,7 @@ func (g *exprGen) scalarLit() *ref.E {
 	t := g.t
 	switch rapid.IntRange(0, 8).Draw(t, "lk") {
 	case 0, 1, 2:
-		return litE(model.NewInt(int64(rapid.SampledFrom([]int{0, 1, 2, 3, 5, -1, -2, 10, 100}).Draw(t, "li"))))
+		return litE(model.NewInt(int64(rapid.SampledFrom([]int{0, 1, 2, 3, 5, -1, -2, 10, 100, 9007199254740992, 9007199254740993, 9223372036854775806}).Draw(t, "li"))))
 	case 3:
 		return litE(model.NewFloat(rapid.SampledFrom([]float64{0.5, 1.5, -2.5, 2.25}).Draw(t, "lf")))
 	case 4, 5:
@@ -411,7 +414,8 @@ func (g *exprGen) step(ctx []*model.Value, env ref.Env, depth int) *ref.E {
 			}
 			return &ref.E{Op: "bin", S: op, A: []*ref.E{{Op: "self"}, rhs}}
 		case 3, 4:
-			return &ref.E{Op: "bin", S: rapid.SampledFrom([]string{"==", "!=", "<", "<=", ">", ">="}).Draw(t, "ncmp"), A: []*ref.E{{Op: "self"}, g.numLit()}}
+			lit := g.numLitFor(c)
+			return &ref.E{Op: "bin", S: rapid.SampledFrom([]string{"==", "!=", "<", "<=", ">", ">="}).Draw(t, "ncmp"), A: []*ref.E{{Op: "self"}, lit}}
 		case 5:
 			return &ref.E{Op: "collect", A: []*ref.E{{Op: "union", A: []*ref.E{{Op: "self"}, g.numLit()}}}}
 		case 6:
@@ -455,6 +459,14 @@ func (g *exprGen) step(ctx []*model.Value, env ref.Env, depth int) *ref.E {
 func (g *exprGen) newVar() string {
 	v := rapid.SampledFrom([]string{"x", "y", "z"}).Draw(g.t, "vn")
 	return v
+}
+
+// numLitFor: integers beyond 2^53 are compared with their neighbours (a comparison through float64 cannot tell them apart).
+func (g *exprGen) numLitFor(c *model.Value) *ref.E {
+	if c != nil && c.K == model.Int && c.I.IsInt64() && (c.I.Int64() > 1<<52 || c.I.Int64() < -(1<<52)) && c.I.Int64() < 1<<62 && rapid.IntRange(0, 3).Draw(g.t, "near") != 0 {
+		return litE(model.NewInt(c.I.Int64() + int64(rapid.SampledFrom([]int{-1, 1}).Draw(g.t, "delta"))))
+	}
+	return g.numLit()
 }
 
 func (g *exprGen) numLit() *ref.E {
@@ -593,7 +605,7 @@ func (g *exprGen) pred(ctx []*model.Value, env ref.Env, depth int) *ref.E {
 	var p *ref.E
 	switch {
 	case target != nil && target.IsNumber():
-		p = mk(rapid.SampledFrom([]string{"==", "!=", "<", "<=", ">", ">="}).Draw(t, "pn"), g.numLit())
+		p = mk(rapid.SampledFrom([]string{"==", "!=", "<", "<=", ">", ">="}).Draw(t, "pn"), g.numLitFor(target))
 	case target != nil && target.K == model.Str:
 		p = mk(rapid.SampledFrom([]string{"==", "!=", "<", ">="}).Draw(t, "ps"), litE(model.NewStr(rapid.SampledFrom([]string{"a", "b", "cat", "abc", "foo", target.S}).Draw(t, "psv"))))
 	case target != nil && target.K == model.Null:
